@@ -843,12 +843,17 @@ def scope_from(T, entries):
     return path
 
 
-def load_inventory():
+def load_inventory(cfg=None):
+    """per-configuration counts when the configuration was frozen (no slack from other configurations), else the
+    maximum over the frozen configurations"""
     p = os.path.join(VERIF, "tables", "site_inventory.json")
     if not os.path.exists(p):
         return {}
     with open(p) as fh:
-        return json.load(fh)["counts"]
+        t = json.load(fh)
+    if cfg is not None and cfg in t.get("by_config", {}):
+        return t["by_config"][cfg]
+    return t["counts"]
 
 
 def calls_predicate(T, fid, pred_re, avoid_re, memo):
@@ -939,7 +944,7 @@ def run_totality(facts, run, prop):
     T = Totality(facts)
     cfg = facts.config
     table = load_table()["entries"]
-    inv = load_inventory()
+    inv = load_inventory(cfg)
     entries = entries_for(facts, prop)
     paths = scope_from(T, entries)
     used = set()
@@ -1007,7 +1012,10 @@ def run_totality(facts, run, prop):
             mod = mod[:-1]
         return "::".join(mod) + "|" + kind
     mod_allowed = {}
+    scope_gnames = set(gen_name(T.fa[fid_].fn["name"]) for fid_ in paths)
     for k_, v_ in inv.items():
+        if k_.split("|")[0] not in scope_gnames:
+            continue        # only functions this check looks at may lend their allowance to a moved site
         mod_allowed[modkey(k_)] = mod_allowed.get(modkey(k_), 0) + v_
     mod_have = {}
     per_key_max = {}
@@ -1015,12 +1023,24 @@ def run_totality(facts, run, prop):
         per_key_max[key] = max(per_key_max.get(key, 0), cnt)
     for key, cnt in per_key_max.items():
         mod_have[modkey(key)] = mod_have.get(modkey(key), 0) + cnt
+    mod_allowed_all, mod_have_all = {}, {}
+    for k_, v_ in mod_allowed.items():
+        mod_allowed_all[k_.split("|")[0]] = mod_allowed_all.get(k_.split("|")[0], 0) + v_
+    for k_, v_ in mod_have.items():
+        mod_have_all[k_.split("|")[0]] = mod_have_all.get(k_.split("|")[0], 0) + v_
     for (fid, key), cnt in sorted(bulk_counts.items(), key=lambda kv: kv[0][1]):
         allowed = inv.get(key, 0)
         a = T.fa[fid]
         if cnt > allowed and mod_have.get(modkey(key), 0) <= mod_allowed.get(modkey(key), 0):
             # redistribution inside the module, total not increased
             moved.append("%s: %d site(s) redistributed within %s" % (key, cnt, modkey(key)))
+            run.oblige(cnt)
+            continue
+        mk = modkey(key).split("|")[0]
+        if cnt > allowed and mod_have_all.get(mk, 0) <= mod_allowed_all.get(mk, 0):
+            # the same obligations under another kind: code moved into a private helper turns the helper's index / range
+            # obligations into call-site requirements of its caller; the module's total did not grow
+            moved.append("%s: %d site(s) re-classified within %s (module total %d <= %d)" % (key, cnt, mk, mod_have_all.get(mk, 0), mod_allowed_all.get(mk, 0)))
             run.oblige(cnt)
             continue
         if cnt > allowed:
@@ -1062,9 +1082,11 @@ def freeze_inventory(configs):
     """Regenerates tables/site_inventory.json from the current tree (development-time only)."""
     from . import facts as factsmod
     counts = {}
+    by_config = {}
     for c in configs:
         f = factsmod.load(c)
         T = Totality(f)
+        mine = by_config.setdefault(c, {})
         for fid, a in T.fa.items():
             per = {}
             for s in T.fn_open_sites(fid):
@@ -1074,4 +1096,5 @@ def freeze_inventory(configs):
                 per[key] = per.get(key, 0) + 1
             for k, v in per.items():
                 counts[k] = max(counts.get(k, 0), v)
-    return counts
+                mine[k] = max(mine.get(k, 0), v)
+    return counts, by_config
